@@ -43,6 +43,9 @@ claimed = {
  "C11": dict(
    text="Word level (BV): Galois-element arithmetic of rlwe.Parameters (GaloisElement group law, periodicity in the generator order, ModInvGaloisElement, SolveDiscreteLogGaloisElement) for all 64-bit rotation indices, through the real ModExp/ModExpPow2 loops (if-converted). Algebraic level (in the C04 automorphism harness, shared code): Automorphism / AutomorphismHoisted / AutomorphismHoistedLazy decrypt to sigma_g of the plaintext with the slot permutation computed from the definition. Inner sums, replication and the scheme-level rotation wrappers are not yet covered.",
    ref="DESIGN.md §6-C11", technique="SSA symbolic execution + SMT (BV) on the Galois arithmetic; algebraic slot model for the induced ciphertext automorphisms"),
+ "C12": dict(
+   text="Integer-scheme linear transformations in the algebraic slot model from go/ssa: the real lintrans.NewLinearTransformation/Encode/BSGSIndex/FindBestBSGSRatio/GaloisElements and Evaluator.Evaluate/EvaluateMany/EvaluateSequential (MultiplyByDiagMatrix and its BSGS variant, hoisted rotations, ModDown) on a ciphertext and keys whose every coefficient is a free field element, concrete diagonals: phase(out) = Σ_d Embed(diag_d) ⊙ σ_{5^d}(phase(in)) up to key-switch noise, for positive/negative diagonal sets, every BSGS ratio incl. disabled, encoding and ciphertext levels below the maximum; the Galois keys generated for exactly the advertised elements suffice; output level and scale as documented. Dimension 2 x 8. The step to 'matrix-vector product slot-wise' is encoder equivariance (C07/C11). CKKS numeric precision is outside (floating-point encoder).",
+   ref="DESIGN.md §6-C12", technique="SSA symbolic execution in the algebraic slot model + SMT (LIA) on the normalised polynomial identities"),
  "C14": dict(
    text="Algebraic slot model of the real collective key-generation protocols (public key, relinearization key both rounds, Galois key) for 1-3 parties with all secrets, errors and CRS polynomials atoms: every party reads the same reference polynomial from equally keyed CRS objects, the aggregate is independent of order/grouping (exact polynomial identity), and the resulting key is a key of the sum of the secrets (checked by using it: encryption+decryption, relinearisation, automorphism under the ideal secret, up to error atoms); mismatched Galois shares are rejected; parameter sets with and without P. The numeric N-times-single-party noise bound and serialization of shares are outside here (C08).",
    ref="DESIGN.md §6-C14", technique="SSA symbolic execution in the algebraic slot model + SMT (LIA) on the normalised identities"),
@@ -55,6 +58,9 @@ claimed = {
  "C20": dict(
    text="Algebraic slot model of the real rgsw.Encryptor and rgsw.Evaluator.ExternalProduct (in place and out of place): RLWE(m) x RGSW(g) decrypts to m*g up to error atoms for the general path with one and several auxiliary primes, the power-of-two path without P and the single-modulus 32-bit fast path, whose un-reduced 64-bit accumulation is tracked as a range obligation; each harness is additionally executed once natively (validation run on realistic primes), which checks the magnitude of the noise that the algebraic model cannot see. Blind rotation (LUT scaling, mod-switch) is outside.",
    ref="DESIGN.md §6-C20", technique="SSA symbolic execution in the algebraic slot model + SMT (LIA) on the normalised identities; tracked lazy ranges; native validation run"),
+ "C17": dict(
+   text="Word-level bounded symbolic model checking of the real samplers as deterministic functions of their byte source (a harness PRNG returning arbitrary symbolic bytes). Uniform: every coefficient is the masked accepted candidate below q_i, rejected candidates are skipped, ReadAndAdd adds modulo q_i, level views write only their limbs and continue the shared stream. Gaussian (ziggurat replaced by an arbitrary norm/sign, float64 arithmetic under the rounding-error model): all limbs hold the residues of one integer within the bound, also for flooding noise larger than a modulus. Ternary (p = 1/2, fixed Hamming weight): one value of {-1,0,1} on every limb, Montgomery and plain, exact Hamming weight, read-and-add keeps the other coefficients. Same stream + same calls give identical polynomials. Statistical clauses (mean, sigma, density, sign balance), the ziggurat tables, the general-p Knuth-Yao path and the blake2 XOF itself are outside.",
+   ref="DESIGN.md §6-C17", technique="SSA symbolic execution over symbolic byte streams + SMT (BV; LIA/LRA for the Gaussian rounding)"),
  "C19": dict(
    text="Symbolic execution of rlwe.CheckModuli with a symbolic candidate modulus and an arbitrary primality oracle (solver characterises every accepted size), plus boundary witnesses (real primes) checked against the 61-bit size the arithmetic layer supports (8q<=2^64, from the C01 stage invariants).",
    ref="DESIGN.md §6-C19", technique="SSA symbolic execution + SMT (BV) over the acceptance predicates; concrete boundary witnesses replayed natively"),
